@@ -39,6 +39,7 @@ type MidRun struct {
 	Chunk int  `json:"chunk"` // which chunk of that seed's index (modulo), zero chunks preferred when Zero
 	Zero  bool `json:"zero"`
 	Fill  byte `json:"fill"`
+	Trunc int  `json:"trunc,omitempty"` // 0: overwrite the chunk; 1: cut the file at that chunk's start; 2: empty the file
 }
 
 type SeedSpec struct {
@@ -242,7 +243,8 @@ func genCase(t *rapid.T) Case {
 	}
 	if len(c.Seeds) > 0 && rapid.IntRange(0, 5).Draw(t, "midrun") == 0 {
 		c.MidRun = &MidRun{Seed: rapid.IntRange(0, 3).Draw(t, "mrseed"), Chunk: rapid.IntRange(0, 1<<16).Draw(t, "mrchunk"),
-			Zero: rapid.Bool().Draw(t, "mrzero"), Fill: byte(rapid.IntRange(1, 255).Draw(t, "mrfill"))}
+			Zero: rapid.Bool().Draw(t, "mrzero"), Fill: byte(rapid.IntRange(1, 255).Draw(t, "mrfill")),
+			Trunc: rapid.SampledFrom([]int{0, 0, 1, 2}).Draw(t, "mrtrunc")}
 		if rapid.Bool().Draw(t, "mrblank") { // the regenerate repair path on a blank target
 			c.Prior, c.Action = "absent", 2
 		}
@@ -471,7 +473,7 @@ func run(c Case) (o hx.Outcome) {
 	}
 	base := runtime.NumGoroutine()
 	un := sched.Perturb(c.Perturb)
-	midRunDone := false
+	midRunDone, midRunTrunc := false, false
 	if c.MidRun != nil {
 		var cands []builtSeed
 		for _, b := range built {
@@ -498,7 +500,15 @@ func run(c Case) (o hx.Outcome) {
 			desync.VerifHook = func(site string) {
 				if site == "assemble.feed" {
 					once.Do(func() {
-						if f, ferr := os.OpenFile(b.path, os.O_WRONLY, 0); ferr == nil {
+						if c.MidRun.Trunc > 0 {
+							at := int64(ch.Start)
+							if c.MidRun.Trunc == 2 {
+								at = 0
+							}
+							if os.Truncate(b.path, at) == nil {
+								midRunDone, midRunTrunc = true, true
+							}
+						} else if f, ferr := os.OpenFile(b.path, os.O_WRONLY, 0); ferr == nil {
 							fill := bytes.Repeat([]byte{c.MidRun.Fill}, int(ch.Size))
 							f.WriteAt(fill, int64(ch.Start))
 							f.Close()
@@ -565,6 +575,9 @@ func run(c Case) (o hx.Outcome) {
 	seedsOK := !staleSeed && !missingSeed && !unopenableSeed
 	if midRunDone {
 		o.Class("seed-changed-mid-run")
+		if midRunTrunc {
+			o.Class("seed-truncated-mid-run")
+		}
 		// a seed that changes while it is being used is only promised to be survived under regenerate
 		if c.Action%3 != 2 {
 			seedsOK = false
@@ -679,7 +692,7 @@ var spec = &hx.Spec[Case]{
 		"non-trivial = at least one chunk came from a seed, was found in place, or bytes were cloned; distinct by (content hash, sizes, seed kinds, prior, action, n, clone, inconsistency)",
 	Assumptions: []string{"block cloning is emulated in-process (rules of fs/remap_range.c), real reflink filesystems are not available", "worker interleavings perturbed at hook sites, not enumerated", "chunk IDs recomputed with crypto/sha512"},
 	Required: []string{"action:bailout", "action:skip", "action:regenerate", "prior:absent", "prior:empty", "prior:garbage", "prior:longer", "prior:shorter", "prior:older", "prior:exact",
-		"empty-blob", "empty-seed", "alias-seed", "stale-seed", "unopenable-seed", "seed-changed-mid-run", "clone-on:max<block", "clone-on:min>block", "clone-on:inplace-seed", "clone-on:isolated-small-null-chunk",
+		"empty-blob", "empty-seed", "alias-seed", "stale-seed", "unopenable-seed", "seed-changed-mid-run", "seed-truncated-mid-run", "clone-on:max<block", "clone-on:min>block", "clone-on:inplace-seed", "clone-on:isolated-small-null-chunk",
 		"chunks-from-seed", "chunks-in-place", "bytes-cloned", "liveness-demanded", "inconsistent-index:size-shift"},
 	Gen:      genCase,
 	Run:      run,
